@@ -76,9 +76,9 @@ class C18(Suite):
             t = rng.choice(pools[w])
             c = rng.choice(cids)
             if r < 0.36:
-                ops.append(["add", w, t, c, rng.choice(["graph", "cg"])])
+                ops.append(["add", w, t, c, rng.choice(["graph", "cg", "cgobj"])])
             elif r < 0.56:
-                ops.append(["rem", w, t, c, rng.choice(["graph", "cg"])])
+                ops.append(["rem", w, t, c, rng.choice(["graph", "cg", "cgobj"])])
             elif r < 0.70:
                 p = [x if rng.random() < 0.5 else None for x in t]
                 if two and rng.random() < 0.8:
@@ -133,6 +133,8 @@ class C18(Suite):
                     name = gname(op[3], DEFAULT)
                     if op[4] == "graph":
                         Graph(auds[w], identifier=name).add(t)
+                    elif op[4] == "cgobj":
+                        cgs[w].add(t + (cgs[w].get_context(name),))
                     else:
                         cgs[w].add(t + (name,))
                 elif kind == "rem":
@@ -143,8 +145,17 @@ class C18(Suite):
                         name = gname(op[3], DEFAULT)
                         if op[4] == "graph":
                             Graph(auds[w], identifier=name).remove(p)
+                        elif op[4] == "cgobj":
+                            cgs[w].remove(p + (cgs[w].get_context(name),))
                         else:
                             cgs[w].remove(p + (name,))
+                elif kind == "addn":
+                    quads = [tuple(term(x) for x in q[:3]) + (cgs[w].get_context(gname(q[3], DEFAULT)),)
+                             for q in op[2]]
+                    if op[3] == "cg":
+                        cgs[w].addN(quads)
+                    else:
+                        auds[w].addN(quads)
                 elif kind == "commit":
                     (auds[w] if op[2] == "store" else cgs[w]).commit()
                 elif kind == "rollback":
@@ -213,4 +224,69 @@ class C18(Suite):
                     yield {"store": "memory", "init": init, "ops": [list(o) for o in seq] + [["rollback", 0, "store"]]}
 
 
-SUITES = [C18()]
+class C18Batch(C18):
+    """Histories with bulk adds (addN): only the content after the whole batch is observable."""
+    name = "auditable_batch"
+    imports = "From RV Require Import Auditable.Batch."
+    case_ty = "bcase"
+    obs_ty = "list qset"
+    model = "bmodel_obs"
+    oeq = "list_eqb qseteqb"
+    spec = "bspec_ok"
+    corr = "AuditableStore via Store.addN (Graph.addN / ConjunctiveGraph.addN)"
+    quick_n = 400
+    thorough_n = 12000
+
+    def gen(self, rng, i):
+        while True:
+            case = super().gen(rng, i)
+            if case["store"] == "memory":
+                break
+        ops, pool = [], []
+        for o in case["ops"]:
+            if o[0] in ("add", "rem") and None not in o[2]:
+                pool.append(o[2])
+        pool = pool or [[1, 3, 5]]
+        cids = sorted({o[3] for o in case["ops"] if o[0] in ("add", "rem") and o[3] is not None}) or [1]
+        for o in case["ops"]:
+            if o[0] == "add" and rng.random() < 0.6:
+                n = rng.choice([1, 2, 2, 3, 4])
+                quads = []
+                for _ in range(n):
+                    t = o[2] if rng.random() < 0.5 else rng.choice(pool)  # repeats within a batch are frequent
+                    quads.append(list(t) + [rng.choice(cids) if rng.random() < 0.4 else o[3]])
+                ops.append(["addn", o[1], quads, rng.choice(["cg", "store"])])
+            else:
+                ops.append(o)
+        case["ops"] = ops
+        return case
+
+    def coq_case(self, case):
+        ops = []
+        for op in case["ops"]:
+            w = cbool(op[1])
+            if op[0] == "add":
+                ops.append(f"BOne (AAdd {w} {c_triple(op[2])} {cN(op[3])})")
+            elif op[0] == "rem":
+                ops.append(f"BOne (ARemove {w} {c_pat(op[2])} {copt(op[3], cN)})")
+            elif op[0] == "commit":
+                ops.append(f"BOne (ACommit {w})")
+            elif op[0] == "rollback":
+                ops.append(f"BOne (ARollback {w})")
+            else:
+                ops.append(f"BAddN {w} " + clist(c_quad(q) for q in op[2]))
+        return "{| b_init := " + c_qset(case["init"]) + "; b_ops := " + clist(ops) + " |}"
+
+    def features(self, case, obs):
+        f = super().features(case, obs)
+        for o in case["ops"]:
+            if o[0] == "addn":
+                f["addn_quads"] = f.get("addn_quads", 0) + len(o[2])
+                f["addn_with_repeat"] = f.get("addn_with_repeat", 0) + int(len({tuple(q) for q in o[2]}) < len(o[2]))
+        return f
+
+    def sweep(self):
+        return []
+
+
+SUITES = [C18(), C18Batch()]
